@@ -22,13 +22,13 @@ Proof.
     pose proof (prop_OC_same _ r Eb) as K. cbn [forallb] in K. rewrite andb_true_r in K. exact K.
   - destruct (h_sp E C fault true (NGen (s_gen s)) h (next_gen s)) as [h1 s1] eqn:Es.
     destruct h1 as [e|]; [inversion H; subst; split; [reflexivity | eexists; eexists; eexists; reflexivity]|].
-    destruct (body None s1) as [[[r0 l0] h0] s2] eqn:Eb. apply HB in Eb.
+    destruct (body h s1) as [[[r0 l0] h0] s2] eqn:Eb. apply HB in Eb.
     destruct r0.
     + inversion H; subst. split; [cbn; rewrite Eb; reflexivity | eexists; eexists; eexists; reflexivity].
-    + destruct (h_sp E C fault false (NGen (s_gen s)) None (if fault (length (s_ops s2)) then flag_rb s2 else s2)) as [h2 s3].
+    + destruct (h_sp E C fault false (NGen (s_gen s)) h (if fault (length (s_ops s2)) then flag_rb s2 else s2)) as [h2 s3].
       inversion H; subst. split; [|eexists; eexists; eexists; reflexivity].
       pose proof (prop_OC_same _ (RErr e) Eb) as K. cbn [forallb] in K. rewrite andb_true_r in K. exact K.
-    + destruct (h_sp E C fault false (NGen (s_gen s)) None (if fault (length (s_ops s2)) then flag_rb s2 else s2)) as [h2 s3].
+    + destruct (h_sp E C fault false (NGen (s_gen s)) h (if fault (length (s_ops s2)) then flag_rb s2 else s2)) as [h2 s3].
       inversion H; subst. split; [|eexists; eexists; eexists; reflexivity].
       pose proof (prop_OC_same _ (RPan p) Eb) as K. cbn [forallb] in K. rewrite andb_true_r in K. exact K.
 Qed.
@@ -54,8 +54,7 @@ Proof.
     + destruct (run_body E C fault k h1 s1) as [[[r1 l1] h2] s2] eqn:Ek. apply IHk in Ek.
       inversion H; subst. cbn [forallb]. rewrite En, Ek. reflexivity.
     + destruct chk; [inversion H; subst; cbn [forallb]; rewrite En; reflexivity|].
-      match type of H with context [run_body E C fault k h1 ?sx] => set (s1' := sx) in * end.
-      destruct (run_body E C fault k h1 s1') as [[[r1 l1] h2] s2] eqn:Ek. apply IHk in Ek.
+      destruct (run_body E C fault k h1 s1) as [[[r1 l1] h2] s2] eqn:Ek. apply IHk in Ek.
       inversion H; subst. cbn [forallb]. rewrite En, Ek. reflexivity.
     + destruct rcv; [|inversion H; subst; cbn [forallb]; rewrite En; reflexivity].
       destruct (run_body E C fault k h1 s1) as [[[r1 l1] h2] s2] eqn:Ek. apply IHk in Ek.
@@ -118,45 +117,43 @@ Qed.
 
 (* a failing nested block undoes exactly its own writes: the transaction sees the table as it
    was when the block started, the program's save points are as they were, and the enclosing
-   handle carries no error (the enclosing transaction stays usable) *)
+   handle is returned exactly as it was (the enclosing transaction stays usable) *)
 Theorem nested_isolated : forall b h s r o h1 s1 t stk,
   c_nonest C = false -> scoped [] b = true ->
   nested E C fault (run_body E C fault b) h s = (r, o, h1, s1) ->
   s_tx s = Some (mkTx t stk) -> gen_ok (s_gen s) stk ->
   x_rb (s_fl s1) = false -> x_drop (s_fl s1) = false ->
-  forall l x, o = OC true l x (cls_of r) -> is_ok r = false ->
-  exists stk', s_tx s1 = Some (mkTx t stk') /\ fu stk' = fu stk
-               /\ (h = None -> x_spign (s_fl s1) = false -> h1 = None).
+  h1 = h /\
+  (is_ok r = false -> exists stk', s_tx s1 = Some (mkTx t stk') /\ fu stk' = fu stk).
 Proof.
-  intros b h s r o h1 s1 t stk Hn Hsc H Htx Hg Hrb Hdr l x Eo Hr.
+  intros b h s r o h1 s1 t stk Hn Hsc H Htx Hg Hrb Hdr.
   assert (HBS : body_spec C (run_body E C fault b)).
   { intros hc sc rc lc hc' sc' tc basec Eb Htc Hgc Hrc Hdc.
     apply (body_inv E savepoint_pushes rollback_to_exact C fault b [] hc sc rc lc hc' sc' tc [] basec Eb Htc (sub_nil _) Hsc Hgc Hrc Hdc). }
   destruct (nested_step E savepoint_pushes rollback_to_exact C fault _ HBS (run_body_flags E C fault b)
               h s r o h1 s1 t [] stk H Htx Hg Hrb Hdr)
-    as [[t1 [local1 [l0 [Eo' [St _]]]]] | [e [_ [Eo' _]]]]; [|rewrite Eo' in Eo; discriminate].
-  destruct St as (A1 & A2 & _ & _ & _ & _ & _ & _ & _ & nops & _ & _ & B3).
-  rewrite Eo', spec_OC, Hn in A2. cbn [negb app] in A2.
-  assert (A2' : (t, fu stk) = (t1, fu (local1 ++ stk))).
-  { destruct r; [discriminate | exact A2 | exact A2]. }
-  inversion A2' as [[Et Ef]].
-  exists (local1 ++ stk). split; [exact A1|]. split; [symmetry; exact Ef|].
-  intros Hh Hx. destruct (B3 Hh Hx) as [P _]. apply P; reflexivity.
+    as [Eh [[t1 [local1 [l0 [Eo' [St _]]]]] | [e [_ [Eo' St]]]]]; (split; [exact Eh|]); intro Hr.
+  - destruct St as (A1 & A2 & _).
+    rewrite Eo', spec_OC, Hn in A2. cbn [negb app] in A2.
+    assert (A2' : (t, fu stk) = (t1, fu (local1 ++ stk))).
+    { destruct r; [discriminate | exact A2 | exact A2]. }
+    inversion A2' as [[Et Ef]].
+    exists (local1 ++ stk). split; [exact A1|]. symmetry; exact Ef.
+  - destruct St as (A1 & _). exists ([] ++ stk). split; [exact A1 | reflexivity].
 Qed.
 
 (* the property as the checker evaluates it, on the model's own output *)
 Theorem spec_holds_model : forall manual p extra o x s,
   run_top E C fault manual p extra (init_st []) = (o, x, s) ->
   scoped [] p = true ->
-  x_rb (s_fl s) = false -> x_drop (s_fl s) = false -> x_spign (s_fl s) = false ->
+  x_rb (s_fl s) = false -> x_drop (s_fl s) = false ->
   spec_holds (mk_case manual p extra C None o x (s_db s)
                 (fst (pool E (rev (s_txlog s)))) (snd (pool E (rev (s_txlog s)))) (rev (s_ops s))) = true.
 Proof.
-  intros manual p extra o x s H Hsc Hrb Hdr Hsp.
+  intros manual p extra o x s H Hsc Hrb Hdr.
   unfold spec_holds; cbn [o_in_use o_open_tx o_top o_ops o_table c_cfg].
   rewrite (released _ _ _ _ _ _ _ H). cbn [fst snd Z.eqb andb].
-  destruct (top_spec E savepoint_pushes rollback_to_exact C fault _ _ _ _ _ _ _ H Hsc Hrb Hdr) as [Hat Hrest].
-  destruct (Hrest Hsp) as [Ht Hu].
+  destruct (top_spec E savepoint_pushes rollback_to_exact C fault _ _ _ _ _ _ _ H Hsc Hrb Hdr) as [Hat [Ht Hu]].
   rewrite <- Hat, same_set_refl, Ht, Hu. apply orb_true_r.
 Qed.
 End Whole.
@@ -188,13 +185,15 @@ Definition sticky_prog := Write 1 true (Child (Write 2 true (Done RetNil)) false
 (* the same with a nested block that fails *)
 Definition stock_prog := Write 1 true (Child (Write 2 true (Done (RetErr 1))) false false (Write 3 false (Done RetNil))).
 
-(* REFUTED: with a fault on the SAVEPOINT of a nested block whose error the enclosing function
-   ignores, COMMIT succeeds (marker 1 durable) but Transaction returns the stale error, and the
-   statement after the nested block fails although no fault hit it *)
-Lemma sticky_witness :
-  exists C p k, scoped [] p = true /\ let '(o, x, s) := run_top ref_env C (fault_at (Some k)) false p [] (init_st []) in
-    x_rb (s_fl s) = false /\ x_drop (s_fl s) = false /\ x_spign (s_fl s) = true /\ s_db s = [1] /\ top_ok o (rev (s_ops s)) = false /\ usable o (rev (s_ops s)) = false.
-Proof. exists cfg_default, sticky_prog, 2%nat. vm_compute. repeat split. Qed.
+(* the input of the former finding (fixed in /repo by 1c49b86): a fault on the SAVEPOINT of a
+   nested block whose error the enclosing function ignores. The nested call reports the fault, the
+   enclosing transaction stays usable (write 3 succeeds), COMMIT succeeds and nil is returned *)
+Lemma sticky_now_ok :
+  scoped [] sticky_prog = true /\
+  let '(o, x, s) := run_top ref_env cfg_default (fault_at (Some 2%nat)) false sticky_prog [] (init_st []) in
+  x_rb (s_fl s) = false /\ x_drop (s_fl s) = false /\
+  s_db s = [1; 3] /\ top_ok o (rev (s_ops s)) = true /\ usable o (rev (s_ops s)) = true.
+Proof. vm_compute. repeat split. Qed.
 
 (* REFUTED for a dialector that drops save-point errors (stock SQLite dialector): the nested
    block failed but its write 2 is durable *)
@@ -211,5 +210,5 @@ Definition demo_prog :=
      (RbTo 7 (Write 6 true (Write 8 false (Done RetNil))))))).
 Lemma demo_instance :
   scoped [] demo_prog = true /\ let '(o, x, s) := run_top ref_env cfg_default (fault_at (Some 12%nat)) false demo_prog [] (init_st []) in
-  x_rb (s_fl s) = false /\ x_drop (s_fl s) = false /\ x_spign (s_fl s) = false /\ s_db s = [1; 6].
+  x_rb (s_fl s) = false /\ x_drop (s_fl s) = false /\ s_db s = [1; 6].
 Proof. vm_compute. repeat split. Qed.
